@@ -8,7 +8,7 @@ def run(ctx):
     ctx.build()
     ctx.mc("MC_Robust", "MC_Robust.cfg")
     scns = run_harness_scenarios(ctx, "robust", [p["scenario"] for p in pinned(ctx, "robust")])
-    out = ctx.harness(["robust", "--random", "700" if quick else "12000", "--timeout", "30"], timeout=7200)
+    out = ctx.harness(["robust", "--random", "700" if quick else "80000", "--timeout", "30"], timeout=7200)
     scns += common.split_scenarios(out)
     kinds = {}
     for s, evs in scns:
